@@ -10,12 +10,21 @@
  * Print a string the way split_line() in gensquashfs reads it back: as is, if
  * it is a single token already, otherwise wrapped in quotation marks, with
  * a backslash in front of every quotation mark and backslash.
+ *
+ * A line feed always ends a line of the listing, quoted or not, so a string
+ * that contains one cannot be written down at all.
  */
-static void print_escaped(const char *str)
+static int print_escaped(const char *str)
 {
+	if (strchr(str, '\n') != NULL) {
+		fprintf(stderr, "Cannot describe '%s': a line feed cannot be "
+			"represented in the listing\n", str);
+		return -1;
+	}
+
 	if (*str != '\0' && strpbrk(str, " \t\r\"\\") == NULL) {
 		fputs(str, stdout);
-		return;
+		return 0;
 	}
 
 	fputc('"', stdout);
@@ -27,6 +36,7 @@ static void print_escaped(const char *str)
 	}
 
 	fputc('"', stdout);
+	return 0;
 }
 
 static int print_name(const sqfs_tree_node_t *n, const char *prefix)
@@ -55,16 +65,16 @@ static int print_name(const sqfs_tree_node_t *n, const char *prefix)
 		}
 
 		sprintf(full, "%s/%s", prefix, name);
-		print_escaped(full);
+		ret = print_escaped(full);
 		free(full);
 	} else if (name[0] == '\0') {
 		fputc('/', stdout);
 	} else {
-		print_escaped(name);
+		ret = print_escaped(name);
 	}
 
 	sqfs_free(name);
-	return 0;
+	return ret;
 }
 
 static void print_perm(const sqfs_tree_node_t *n)
@@ -93,7 +103,8 @@ static int print_slink(const sqfs_tree_node_t *n)
 		return -1;
 	print_perm(n);
 	fputc(' ', stdout);
-	print_escaped((const char *)n->inode->extra);
+	if (print_escaped((const char *)n->inode->extra))
+		return -1;
 	fputc('\n', stdout);
 	return 0;
 }
